@@ -330,6 +330,13 @@ func (c *Client) sendRecv(tm message, rm message) error {
 		c.pendingMu.Lock()
 		delete(c.pending, tag(t))
 		c.pendingMu.Unlock()
+		// A receive error seen by another goroutine in the meantime has
+		// signalled every pending response, this one included; nobody
+		// will read that signal, so take it out before resp is recycled.
+		select {
+		case <-resp.done:
+		default:
+		}
 		return fmt.Errorf("send: %w", err)
 	}
 
